@@ -159,7 +159,15 @@ class Interp:
     def explore(self, thunk: Callable[["Interp"], Value]) -> List[Path]:
         paths: List[Path] = []
         stack: List[List[int]] = [[]]
+        import os as _os
+        import time as _time
+        t0 = _time.time()
+        budget = float(_os.environ.get("JASMSA_EXPLORE_BUDGET_S", "150"))
         while stack:
+            if _time.time() - t0 > budget:
+                # the exploration cannot be completed in reasonable time: the check ends here, fail closed (findings that
+                # are already established are still reported by the driver)
+                raise AnalysisError(f"exploration budget of {budget:.0f}s exceeded after {len(paths)} paths")
             prefix = stack.pop()
             self.run = Run(prefix)
             try:
